@@ -86,6 +86,9 @@ type Case struct {
 	// Type0 >= 1 puts padSigs[Type0-1] first in the guest's type section, so that type index 0
 	// is not the type of the function under test.
 	Type0 int `json:"type0,omitempty"`
+	// Mods (2 or 3): the host functions are spread over that many host modules: function #j
+	// lives in host module j%Mods at index j/Mods, so equal indices occur in different modules.
+	Mods int `json:"host_modules,omitempty"`
 }
 
 var styles = []string{"reflect", "reflect-ctx", "reflect-mod", "gofunc", "gomodfunc"}
@@ -210,6 +213,25 @@ func pushConst(b *wasmenc.B, t byte, c uint64) {
 
 var auxKinds = []string{"gi", "gI", "gF", "m", "t"}
 
+func nMods(c Case) int {
+	n := c.Fleet
+	if n < 1 {
+		n = 1
+	}
+	if c.Mods >= 2 && c.Mods <= n {
+		return c.Mods
+	}
+	return 1
+}
+
+// hostModName is the name of the host module that holds function #j.
+func hostModName(c Case, j int) string {
+	if k := j % nMods(c); k > 0 {
+		return fmt.Sprintf("host%d", k)
+	}
+	return "host"
+}
+
 // importOrder returns the guest's import section order (default: f, then the probes).
 func importOrder(c Case) []string {
 	if len(c.Imports) > 0 {
@@ -260,7 +282,7 @@ func buildGuest(c Case) []byte {
 	for _, x := range importOrder(c) { // all imports before the first AddFunc
 		switch x {
 		case "f":
-			host = m.ImportFunc("host", "f", P, R)
+			host = m.ImportFunc(hostModName(c, c.Pos), "f", P, R)
 		case "gi":
 			m.Imports = append(m.Imports, wasmenc.Import{Mod: "aux", Name: "gi", Kind: wasmenc.KGlobal, Desc: wasmenc.GlobalType(wasmenc.I32, false)})
 		case "gI":
@@ -276,7 +298,7 @@ func buildGuest(c Case) []byte {
 			var j int
 			fmt.Sscanf(x, "p%d", &j)
 			pp, pr := padSig(j)
-			padIdx[j] = m.ImportFunc("host", x, vts(pp), vts(pr))
+			padIdx[j] = m.ImportFunc(hostModName(c, j), x, vts(pp), vts(pr))
 		}
 	}
 	params := func(b *wasmenc.B) *wasmenc.B {
@@ -307,6 +329,57 @@ func buildGuest(c Case) []byte {
 	}
 	m.ExportFunc("echo_ind", m.AddFunc(P, R, nil, params(wasmenc.NewB()).I32Const(0).CallIndirect(m.AddType(P, R), ownTable).Bytes()))
 	m.ExportFunc("echo_tail", m.AddFunc(P, R, nil, params(wasmenc.NewB()).ReturnCall(host).Bytes()))
+	// multi_v: () -> i64: one guest call that calls every probed pad function, then the function
+	// under test with the v-th vector as constants, then every pad function again, comparing all
+	// results with constants inside the guest (bit k / 16+k: pad k in round 1 / 2, bit 40: function under test)
+	if len(c.Probes) > 0 && len(c.Probes) <= 16 {
+		for vi, v := range c.Vecs {
+			if vi >= 2 {
+				break // two vectors are enough for the multi-call form
+			}
+			var locals []byte
+			locals = append(locals, R...)
+			base := map[int]uint32{}
+			for _, j := range c.Probes {
+				_, pr := padSig(j)
+				base[j] = uint32(len(locals))
+				locals = append(locals, vts(pr)...)
+			}
+			b := wasmenc.NewB().I64Const(0)
+			round := func(shift int) {
+				for k, j := range c.Probes {
+					pp, pr := padSig(j)
+					pargs := padArgs(vi, j)
+					for i := range pp {
+						pushConst(b, pp[i], pargs[i])
+					}
+					b.Call(padIdx[j])
+					for i := len(pr) - 1; i >= 0; i-- {
+						b.LocalSet(base[j] + uint32(i))
+					}
+					want := padResults(j, pr, pargs)
+					for i := range pr {
+						flagsExpr(b, pr[i], base[j]+uint32(i), want[i])
+						b.Raw(wasmenc.OpI32Eqz).Raw(wasmenc.OpI32Eqz).Raw(wasmenc.OpI64ExtendI32U).I64Const(int64(shift + k)).Raw(wasmenc.OpI64Shl).Raw(wasmenc.OpI64Or)
+					}
+				}
+			}
+			round(0)
+			for i := range P {
+				pushConst(b, c.P[i], v.Args[i])
+			}
+			b.Call(host)
+			for i := int(nr) - 1; i >= 0; i-- {
+				b.LocalSet(uint32(i))
+			}
+			for i := 0; i < int(nr); i++ {
+				flagsExpr(b, c.R[i], uint32(i), v.Res[i])
+				b.Raw(wasmenc.OpI32Eqz).Raw(wasmenc.OpI32Eqz).Raw(wasmenc.OpI64ExtendI32U).I64Const(40).Raw(wasmenc.OpI64Shl).Raw(wasmenc.OpI64Or)
+			}
+			round(16)
+			m.ExportFunc(fmt.Sprintf("multi_%d", vi), m.AddFunc(nil, []byte{wasmenc.I64}, locals, b.Bytes()))
+		}
+	}
 	for vi, v := range c.Vecs {
 		// kcall_v: () -> i64, locals = results
 		b := wasmenc.NewB()
@@ -433,23 +506,56 @@ func (h *hostState) stackFn(ctx context.Context, mod api.Module, stack []uint64)
 	}
 }
 
+// Named types of every accepted kind (the builder accepts parameter and result types by kind).
+type (
+	MyI32 int32
+	MyU32 uint32
+	MyI64 int64
+	MyU64 uint64
+	MyF32 float32
+	MyF64 float64
+	MyPtr uintptr
+)
+
+// goType: selector s/u = plain signed/unsigned type, S/U = named type of the same kind.
 func goType(t, sel byte) reflect.Type {
+	named := sel == 'S' || sel == 'U'
+	unsigned := sel == 'u' || sel == 'U'
 	switch t {
 	case 'i':
-		if sel == 'u' {
+		switch {
+		case named && unsigned:
+			return reflect.TypeOf(MyU32(0))
+		case named:
+			return reflect.TypeOf(MyI32(0))
+		case unsigned:
 			return reflect.TypeOf(uint32(0))
 		}
 		return reflect.TypeOf(int32(0))
 	case 'I':
-		if sel == 'u' {
+		switch {
+		case named && unsigned:
+			return reflect.TypeOf(MyU64(0))
+		case named:
+			return reflect.TypeOf(MyI64(0))
+		case unsigned:
 			return reflect.TypeOf(uint64(0))
 		}
 		return reflect.TypeOf(int64(0))
 	case 'f':
+		if named {
+			return reflect.TypeOf(MyF32(0))
+		}
 		return reflect.TypeOf(float32(0))
 	case 'F':
+		if named {
+			return reflect.TypeOf(MyF64(0))
+		}
 		return reflect.TypeOf(float64(0))
 	default:
+		if named {
+			return reflect.TypeOf(MyPtr(0))
+		}
 		return reflect.TypeOf(uintptr(0))
 	}
 }
@@ -463,42 +569,47 @@ func sel(s string, i int) byte {
 
 // bitsOf reads the raw bits of a reflected argument without any float conversion.
 func bitsOf(v reflect.Value) uint64 {
-	switch x := v.Interface().(type) {
-	case int32:
-		return uint64(uint32(x))
-	case uint32:
-		return uint64(x)
-	case int64:
-		return uint64(x)
-	case uint64:
-		return x
-	case float32:
-		return uint64(math.Float32bits(x))
-	case float64:
-		return math.Float64bits(x)
-	case uintptr:
-		return uint64(x)
+	switch v.Kind() {
+	case reflect.Int32:
+		return uint64(uint32(v.Int()))
+	case reflect.Int64:
+		return uint64(v.Int())
+	case reflect.Uint32, reflect.Uint64, reflect.Uintptr:
+		return v.Uint()
+	case reflect.Float32:
+		// float32 -> float32 conversion keeps the bits (no round trip through float64)
+		return uint64(math.Float32bits(v.Convert(f32Type).Interface().(float32)))
+	case reflect.Float64:
+		return math.Float64bits(v.Float())
 	}
 	panic("harness: unexpected reflected type " + v.Type().String())
 }
 
+var f32Type = reflect.TypeOf(float32(0))
+
+// valueOf makes a value of (possibly named) type t from raw bits.
 func valueOf(t reflect.Type, bits uint64) reflect.Value {
+	var v reflect.Value
 	switch t.Kind() {
 	case reflect.Int32:
-		return reflect.ValueOf(int32(uint32(bits)))
+		v = reflect.ValueOf(int32(uint32(bits)))
 	case reflect.Uint32:
-		return reflect.ValueOf(uint32(bits))
+		v = reflect.ValueOf(uint32(bits))
 	case reflect.Int64:
-		return reflect.ValueOf(int64(bits))
+		v = reflect.ValueOf(int64(bits))
 	case reflect.Uint64:
-		return reflect.ValueOf(bits)
+		v = reflect.ValueOf(bits)
 	case reflect.Float32:
-		return reflect.ValueOf(math.Float32frombits(uint32(bits)))
+		v = reflect.ValueOf(math.Float32frombits(uint32(bits)))
 	case reflect.Float64:
-		return reflect.ValueOf(math.Float64frombits(bits))
+		v = reflect.ValueOf(math.Float64frombits(bits))
 	default:
-		return reflect.ValueOf(uintptr(bits))
+		v = reflect.ValueOf(uintptr(bits))
 	}
+	if v.Type() != t {
+		v = v.Convert(t) // same kind: bit-preserving (float32->float32 keeps signalling NaNs)
+	}
+	return v
 }
 
 var (
@@ -599,6 +710,16 @@ var padSigs = [][2]string{{"i", "i"}, {"II", "I"}, {"", "iI"}, {"Fi", "Ii"}, {"I
 func padSig(j int) (string, string) { s := padSigs[(j/5)%len(padSigs)]; return s[0], s[1] }
 func padStyle(j int) string         { return styles[j%len(styles)] }
 
+// padArgs: the arguments the harness and the guest's multi function pass to pad function j for vector vi.
+func padArgs(vi, j int) []uint64 {
+	pp, _ := padSig(j)
+	a := make([]uint64, len(pp))
+	for i := range a {
+		a[i] = canon(pp[i], mix(0xa46, uint64(vi), uint64(j), uint64(i)))
+	}
+	return a
+}
+
 func padResults(j int, R string, args []uint64) []uint64 {
 	r := make([]uint64, len(R))
 	for i := range r {
@@ -646,10 +767,10 @@ func (h *hostState) addPad(b wazero.HostModuleBuilder, j int) {
 			in, skip = append(in, ctxType, modType), 2
 		}
 		for i := range P {
-			in = append(in, goType(P[i], "su"[(j+i)%2]))
+			in = append(in, goType(P[i], "sSuU"[(j+i)%4]))
 		}
 		for i := range R {
-			out = append(out, goType(R[i], "us"[(j+i)%2]))
+			out = append(out, goType(R[i], "uUsS"[(j+2*i)%4]))
 		}
 		fb = fb.WithFunc(reflect.MakeFunc(reflect.FuncOf(in, out, false), func(a []reflect.Value) []reflect.Value {
 			args := make([]uint64, len(P))
@@ -699,8 +820,13 @@ func valid(c Case) bool {
 	if c.Fleet < 0 || c.Fleet > 4096 || c.Pos < 0 || (c.Fleet > 1 && c.Pos >= c.Fleet) || (c.Fleet <= 1 && (c.Pos != 0 || len(c.Probes) > 0)) || len(c.Probes) > 32 {
 		return false
 	}
-	if c.Type0 < 0 || c.Type0 > len(padSigs) {
+	if c.Type0 < 0 || c.Type0 > len(padSigs) || c.Mods < 0 || c.Mods > 3 {
 		return false
+	}
+	for _, ch := range c.PGo + c.RGo {
+		if !strings.ContainsRune("suSU", ch) {
+			return false
+		}
 	}
 	if len(c.Imports) > 0 {
 		want := map[string]int{"f": 1}
@@ -764,12 +890,20 @@ func runCase(c Case) (f *failure, st runStats) {
 	defer rt.Close(bg)
 	h := &hostState{c: c}
 	lctx := listenerCtx(bg, c.Listener)
-	hb := rt.NewHostModuleBuilder("host")
 	nfn := c.Fleet
 	if nfn < 1 {
 		nfn = 1
 	}
+	hbs := map[string]wazero.HostModuleBuilder{}
+	var hbNames []string
 	for j := 0; j < nfn; j++ {
+		name := hostModName(c, j)
+		hb := hbs[name]
+		if hb == nil {
+			hb = rt.NewHostModuleBuilder(name)
+			hbs[name] = hb
+			hbNames = append(hbNames, name)
+		}
 		if j != c.Pos {
 			h.addPad(hb, j)
 			continue
@@ -790,8 +924,10 @@ func runCase(c Case) (f *failure, st runStats) {
 		}
 		fb.Export("f")
 	}
-	if _, err := hb.Instantiate(lctx); err != nil {
-		return failf("%s: the builder rejected the host module: %v", describe(c), err), st
+	for _, name := range hbNames {
+		if _, err := hbs[name].Instantiate(lctx); err != nil {
+			return failf("%s: the builder rejected the host module %s: %v", describe(c), name, err), st
+		}
 	}
 	if needsAux(c) {
 		if _, err := rt.InstantiateWithConfig(lctx, auxModule(), wazero.NewModuleConfig().WithName("aux")); err != nil {
@@ -811,8 +947,13 @@ func runCase(c Case) (f *failure, st runStats) {
 	np, nr := len(c.P), len(c.R)
 
 	// call invokes an export either with Call or with CallWithStack.
+	fnCache := map[string]api.Function{} // api.Function objects are reused for sequential calls, as callers do
 	call := func(name string, withStack bool, args []uint64, nres int) ([]uint64, error) {
-		fn := guest.ExportedFunction(name)
+		fn := fnCache[name]
+		if fn == nil {
+			fn = guest.ExportedFunction(name)
+			fnCache[name] = fn
+		}
 		if fn == nil {
 			return nil, fmt.Errorf("harness: no export %s", name)
 		}
@@ -932,10 +1073,7 @@ func runCase(c Case) (f *failure, st runStats) {
 		// pad functions at other positions of the same host module
 		for pi, j := range c.Probes {
 			pp, pr := padSig(j)
-			pargs := make([]uint64, len(pp))
-			for i := range pargs {
-				pargs[i] = canon(pp[i], mix(0xa46, uint64(vi), uint64(j), uint64(i)))
-			}
+			pargs := padArgs(vi, j)
 			ws := (pi+vi)%2 == 1
 			what := fmt.Sprintf("vector %d: host function #%d of %d in the host module (%s %q->%q) called through the guest via %s", vi, j, c.Fleet, padStyle(j), pp, pr, form(ws))
 			res, err := call(fmt.Sprintf("pad_%d", j), ws, pargs, len(pr))
@@ -960,6 +1098,50 @@ func runCase(c Case) (f *failure, st runStats) {
 			}
 			if f := sameRes(what+": results", pr, res, padResults(j, pr, pargs)); f != nil {
 				return f, st
+			}
+		}
+		// multi: one guest call reaching several host functions (of several host modules)
+		if len(c.Probes) > 0 && len(c.Probes) <= 16 && vi < 2 {
+			for rep := 0; rep < 2; rep++ { // twice through the same api.Function object
+				what := fmt.Sprintf("vector %d: one guest call that calls host functions %v, the function under test (#%d), then %v again (call %d through the same api.Function)", vi, c.Probes, c.Pos, c.Probes, rep+1)
+				res, err := call(fmt.Sprintf("multi_%d", vi), rep == 1, nil, 1)
+				pcalls, fcalls, probs := h.padCalls, h.calls, h.problems
+				h.padCalls, h.calls, h.problems = nil, nil, nil
+				if err != nil {
+					return failf("%s: %s failed: %v", describe(c), what, firstLine(err)), st
+				}
+				if len(probs) > 0 {
+					return failf("%s: %s: %s", describe(c), what, probs[0]), st
+				}
+				var wantSeq []int
+				wantSeq = append(append(wantSeq, c.Probes...), c.Probes...)
+				var gotSeq []int
+				for _, pc := range pcalls {
+					gotSeq = append(gotSeq, pc.id)
+				}
+				if fmt.Sprint(gotSeq) != fmt.Sprint(wantSeq) || len(fcalls) != 1 {
+					return failf("%s: %s: host-side record: pad functions %v ran and the function under test ran %d times; expected %v and once", describe(c), what, gotSeq, len(fcalls), wantSeq), st
+				}
+				for _, pc := range pcalls {
+					pp, _ := padSig(pc.id)
+					if w := padArgs(vi, pc.id); fmt.Sprint(pc.args) != fmt.Sprint(w) {
+						return failf("%s: %s: host function #%d (module %s) received %s, the guest passed %s", describe(c), what, pc.id, hostModName(c, pc.id), fmtVals(pp, pc.args), fmtVals(pp, w)), st
+					}
+				}
+				kargs := append([]uint64{}, v.Args...)
+				for i := range kargs {
+					if c.P[i] == 'x' {
+						kargs[i] = 0
+					}
+				}
+				for i := range kargs {
+					if fcalls[0][i] != kargs[i] {
+						return failf("%s: %s: the function under test received %s, the guest passed %s", describe(c), what, fmtVals(c.P, fcalls[0]), fmtVals(c.P, kargs)), st
+					}
+				}
+				if res[0] != 0 {
+					return failf("%s: %s: inside the guest some results compared unequal to what those host functions return (mask %#x: bit k / 16+k = %d-th listed pad function in round 1 / 2, bit 40 = function under test)", describe(c), what, res[0], 0), st
+				}
 			}
 		}
 		// kcall: constants -> host -> compared in the guest
@@ -1046,6 +1228,9 @@ func describe(c Case) string {
 	}
 	if c.Fleet > 1 {
 		g += fmt.Sprintf(" host-module-functions=%d position=%d", c.Fleet, c.Pos)
+	}
+	if nMods(c) > 1 {
+		g += fmt.Sprintf(" host-modules=%d", nMods(c))
 	}
 	if len(c.Imports) > 0 {
 		g += fmt.Sprintf(" guest-imports=%v", c.Imports)
@@ -1416,7 +1601,7 @@ func exclude(c *Case) {
 		v := &c.Vecs[vi]
 		if hasSignExt[c.Engine] {
 			for k := range v.Res {
-				if c.R[k] == 'i' && sel(c.RGo, k) == 's' && v.Res[k]&0x80000000 != 0 {
+				if c.R[k] == 'i' && (sel(c.RGo, k) == 's' || sel(c.RGo, k) == 'S') && v.Res[k]&0x80000000 != 0 {
 					v.Res[k] &= 0x7fffffff
 					evid.Label("excluded-negative-int32-reflect-result", 1)
 				}
@@ -1543,7 +1728,7 @@ func genGo(t *rapid.T, n int, label string) string {
 		case 1:
 			b[i] = 'u'
 		default:
-			b[i] = "su"[rapid.IntRange(0, 1).Draw(t, "su")]
+			b[i] = "suSU"[rapid.IntRange(0, 3).Draw(t, "su")]
 		}
 	}
 	return string(b)
@@ -1603,6 +1788,9 @@ func genCase(t *rapid.T) Case {
 				c.Probes = append(c.Probes, j)
 			}
 		}
+	}
+	if c.Fleet > 1 && rapid.IntRange(0, 2).Draw(t, "one-host-module") != 0 {
+		c.Mods = rapid.IntRange(2, 3).Draw(t, "host-modules")
 	}
 	// the guest's import section: function imports in a drawn order, interleaved with
 	// imported globals / memory / table at drawn positions; and a drawn first type
@@ -1691,6 +1879,20 @@ func labelsOf(c Case, st runStats) (bool, []string) {
 		if c.Type0 > 0 {
 			l = append(l, "guest-type-0-drawn")
 		}
+	}
+	if nMods(c) > 1 {
+		l = append(l, "several-host-modules")
+		idx := map[int]bool{c.Pos / nMods(c): true}
+		for _, j := range c.Probes {
+			if idx[j/nMods(c)] {
+				l = append(l, "imports-with-equal-index-in-different-host-modules")
+				break
+			}
+			idx[j/nMods(c)] = true
+		}
+	}
+	if strings.ContainsAny(c.PGo+c.RGo, "SU") && isReflect(c.Style) {
+		l = append(l, "reflect-named-go-types")
 	}
 	if c.Fleet > 1 && c.Fleet < 300 {
 		l = append(l, "host-module-with-2-5-functions")
